@@ -212,6 +212,17 @@ def unforge_address(data: bytes) -> str:
         return base58_encode(data[1:], tz_prefixes[b'\x00' + data[:1]]).decode()
 
 
+def unforge_key_hash(data: bytes) -> str:
+    """Decode key_hash (curve tag + 20-byte hash) from bytes.
+
+    :param data: encoded key_hash
+    :returns: base58 encoded public key hash
+    """
+    if len(data) != 21:
+        raise ValueError(f'key_hash is 21 bytes long, got {len(data)} bytes')
+    return unforge_address(data)
+
+
 def forge_contract(value: str) -> bytes:
     """Encode a value of contract type (address + optional entrypoint) into bytes.
 
